@@ -172,6 +172,23 @@ func genOverlap(rt *rapid.T, oo overlapOpts) *overlapCase {
 		if len(ctorIDs) > 0 && rapid.IntRange(0, 4).Draw(rt, "ctorbias") != 0 {
 			pool = ctorIDs
 		}
+		// services with an optional dependency on something registered: what they are
+		// built with when a Close lands between two of their dependencies is the question
+		var optIDs []kit.Ident
+		for _, id := range ctorIDs {
+			if ow, ok := x.M.Owner(id); ok && id.Group == "" {
+				r := x.M.Regs[ow.Reg]
+				for di, d := range r.Deps {
+					if di > 0 && d.Optional && len(x.M.DepTargets(d)) > 0 && r.Life == kit.Transient {
+						optIDs = append(optIDs, id)
+						break
+					}
+				}
+			}
+		}
+		if len(optIDs) > 0 && rapid.IntRange(0, 2).Draw(rt, "optbias") == 0 {
+			pool = optIDs
+		}
 		c.A = Op{Kind: "get", Scope: atag, Ident: rapid.SampledFrom(pool).Draw(rt, "aid")}
 	case "create":
 		c.A = Op{Kind: "create", Scope: atag, Ctx: rapid.SampledFrom([]int{0, 1, 2}).Draw(rt, "actx")}
@@ -445,6 +462,23 @@ func (c *overlapCase) checkOverlapResults(prop string) *Failure {
 			}
 		}
 	}
+	// nothing half-initialised reaches anybody: an instance constructed while its scope was being
+	// closed may have lost a registered optional dependency to the disposed error - then the
+	// resolution that constructed it (and everyone else) must get the disposed error, not the instance
+	if len(x.W.CloseFailRegs) == 0 {
+		_, problems := x.observations()
+		vis := x.visibleInvs()
+		for _, pr := range problems {
+			if pr.Oracle == "arg-present" && pr.Inv != nil && vis[pr.Inv] {
+				if reg := x.M.Regs[pr.Inv.Reg]; reg != nil && reg.Form == kit.FormVoid {
+					if rec := x.R.ScopeRecOf(pr.Inv.ScopeTag); pr.Inv.ScopeTag != 0 && (rec == nil || !rec.Created) {
+						continue // an initializer of a scope whose creation reported the disposed error
+					}
+				}
+				return fail(prop, "complete-result", "half-wired", "handed out although constructed without a registered dependency: %s", pr.Msg)
+			}
+		}
+	}
 	return nil
 }
 
@@ -524,7 +558,9 @@ func TestC10Schedules(t *testing.T) {
 // ---- C13: an operation overlapping a Close completes or reports disposed ----
 
 func TestC13Schedules(t *testing.T) {
-	oo := overlapOpts{Gen: dispOpts(), AKinds: []string{"get", "get", "create", "create-gatectx", "close", "close"}, BKinds: []string{"close", "close-ancestor", "pclose", "cancel"},
+	g13 := kit.FullOpts() // both disposable and plain services: a plain transient is the one result nothing else vets when its scope closes under it
+	g13.OptionalBias = true
+	oo := overlapOpts{Gen: g13, AKinds: []string{"get", "get", "create", "create-gatectx", "close", "close"}, BKinds: []string{"close", "close-ancestor", "pclose", "cancel"},
 		GateKind: allGates, ExtraWarm: 6, ExtraScopes: 4}
 	runOverlapTest(t, "C13", "controlled-schedules",
 		"controlled two-thread programs: thread A issues Get*/CreateScope and is parked at the n-th constructor entry/exit it reaches (initializers included) or inside ctx.Done() of the context handed to CreateScope; or A closes a scope and is parked inside an instance's Close(); thread B runs one Close (A's scope, an ancestor, the provider) or a context cancellation to completion or until it blocks; if B's Close returned while A is still parked, every scope it covers is probed and must already refuse use; A is released; oracle: no panic, no hang (20 s), A returns fully constructed values or an error satisfying errors.Is(ErrScopeDisposed/ErrProviderDisposed), probes report the disposed error; non-trivial = A was parked",
